@@ -528,6 +528,9 @@ func init() {
 	Registry["C02"] = func(c *Ctx) {
 		c.R.Rule = "the C01 history search extended with workspace pre-state operations on output paths between builds (delete output, delete its parent directory, modify, truncate, delete a directory output, replace a file output by a directory, add a stale file to a directory output, clear an exec bit); after every build the set of executed commands (trace written by the commands themselves) must EQUAL the set predicted by the reference cache model: nothing on a no-op rebuild, only targets whose state has no cached result otherwise; dependants of a target that reproduces identical outputs are restored (early cut-off); every clone of the workspace lives at a different absolute path. Thorough additionally runs sha256 and load_outputs=minimal universes."
 		c.R.Assume("commands of the model workspace are deterministic", "executions are observed through an O_APPEND trace file written by the commands", "the reference model predicts a hit whenever a successful result for the identical target state was stored earlier in the same history")
+		// "irrespective of timing": the output hash that decides early cut-off must not depend on the
+		// order in which a target's concurrent output writers finish (real Registry under the scheduler)
+		defer outOrder(c, "C02")
 		histCheck("C02", []string{"C02:"}, 3, 4, func(e *histEngine, thorough bool) {
 			e.preOps = preOpNames
 			if thorough {
